@@ -473,12 +473,22 @@ def clause_f(ctx, P):
     # escape and parse tables are siblings: '.' and '\\' are the escaped characters on both sides
     esc = P.one("service_info::escape_instance_name")
     par = P.one("DnsOutPacket::parse_escaped_name")
-    def char_consts(fn):
+    def char_consts(fn, depth=0):
+        """characters the function tells apart: arms of a `match ch`, or `ch == 'x'` comparisons (also in its closures)"""
         out = set()
         for b in fn.live_blocks():
             t = fn.term(b)
             if t["k"] == "switch" and (t["d"].get("p") or {}).get("ty") == "char":
                 out |= {v for v, _ in t["branches"]}
+        for b, i, s_ in fn.assigns():
+            r = s_["r"]
+            if r["k"] == "binop" and r["op"] in ("Eq", "Ne"):
+                for o in (r["a"], r["b"]):
+                    if o.get("k") == "const" and o.get("ty") == "char" and isinstance(o.get("val"), int):
+                        out.add(o["val"])
+        if depth < 2:
+            for c in P.closures_of.get(fn.name, []):
+                out |= char_consts(P.fns[c], depth + 1)
         return out
     ce, cp = char_consts(esc), char_consts(par)
     ctx.ob("C02f.escape-siblings", "escape_instance_name~parse_escaped_name", ce == {46, 92} and {46, 92} <= cp, esc.loc(),
